@@ -14,6 +14,12 @@
 //   homog  : the camera matrix M replaced by an equivalent homogeneous representation (all 16 entries times w, or the
 //            weight stored in M[3][3] only); transforming a point by M includes the division by the homogeneous
 //            coordinate, the oracle does the same in quad
+//   edge   : the frustum comes from gen_edge_frustum: window edges exactly 0 (each edge, corner tiles), windows symmetric
+//            in one axis only, near / far-near exact powers of two, window() tiles, special fov / aspect values; section 3
+//            additionally feeds such values to set(fov,aspect), window() and modifyNearAndFar and requires every
+//            accessor to stay finite (failure keys prefixed "edge/")
+// Section 6b asserts the culling claims for objects with IEEE-infinite extents (what is asserted and what the unchanged
+// tree gets wrong is stated there).
 // Sections 7-8 check state carried between calls: a re-used FrustumTest / Frustum must answer bit for bit like a
 // fresh object constructed with the same arguments.
 #include "c15_geom.h"
@@ -60,6 +66,24 @@ template <class T> struct FG
     quad       n, f, l, r, t, b; // stored values
     bool       asym, ratio100;
 };
+
+// common tail of the frustum generators (no draws): degenerate() check, exact stored values, class labels, note
+template <class T> static void finish_fg (vp::Ctx& c, FG<T>& g)
+{
+    VP_REQUIRE (c, !g.F.degenerate (), "frustum/degenerate", "generated frustum reports degenerate() (or copy / operator== / operator!= misbehaved)");
+    g.ortho = g.F.orthographic ();
+    g.n = (quad) g.F.nearPlane (), g.f = (quad) g.F.farPlane ();
+    g.l = (quad) g.F.left (), g.r = (quad) g.F.right (), g.t = (quad) g.F.top (), g.b = (quad) g.F.bottom ();
+    c.label (g.ortho ? FL_ORTHO : FL_PERSP);
+    g.asym = (g.l + g.r != 0) || (g.t + g.b != 0);
+    if (g.asym) c.label (FL_ASYM);
+    if (g.l > 0 || g.r < 0 || g.b > 0 || g.t < 0) c.label (FL_OFFAXIS);
+    g.ratio100 = g.f > 100 * g.n;
+    if (g.ratio100) c.label (FL_RATIO100);
+    if (g.f > (quad) 1e6 * g.n) c.label (FL_RATIO1E6);
+    if (!g.ortho && (g.r - g.l) < (quad) 0.1 * g.n) c.label (FL_NARROW);
+    VP_NOTE (c, (g.ortho ? "ortho" : "persp") << " near=" << g.F.nearPlane () << " far=" << g.F.farPlane () << " left=" << g.F.left () << " right=" << g.F.right () << " top=" << g.F.top () << " bottom=" << g.F.bottom ());
+}
 
 template <class T> static FG<T> gen_frustum (vp::Ctx& c, bool allow_fov = true, double max_ratio_decades = 8)
 {
@@ -122,19 +146,7 @@ template <class T> static FG<T> gen_frustum (vp::Ctx& c, bool allow_fov = true, 
     if (want_set) // set(n,f,l,r,t,b,ortho) / constructor / operator= store exactly what was given
         VP_REQUIRE (c, same<T> (g.F.nearPlane (), wn) && same<T> (g.F.farPlane (), wf) && same<T> (g.F.left (), wl) && same<T> (g.F.right (), wr) && same<T> (g.F.top (), wt) && same<T> (g.F.bottom (), wb) && g.F.orthographic () == wo, "frustum/set-accessors",
                     "set(" << wn << "," << wf << "," << wl << "," << wr << "," << wt << "," << wb << "," << wo << ") reads back as near=" << g.F.nearPlane () << " far=" << g.F.farPlane () << " left=" << g.F.left () << " right=" << g.F.right () << " top=" << g.F.top () << " bottom=" << g.F.bottom () << " ortho=" << g.F.orthographic ());
-    VP_REQUIRE (c, !g.F.degenerate (), "frustum/degenerate", "generated frustum reports degenerate() (or copy / operator== / operator!= misbehaved)");
-    g.ortho = g.F.orthographic ();
-    g.n = (quad) g.F.nearPlane (), g.f = (quad) g.F.farPlane ();
-    g.l = (quad) g.F.left (), g.r = (quad) g.F.right (), g.t = (quad) g.F.top (), g.b = (quad) g.F.bottom ();
-    c.label (g.ortho ? FL_ORTHO : FL_PERSP);
-    g.asym = (g.l + g.r != 0) || (g.t + g.b != 0);
-    if (g.asym) c.label (FL_ASYM);
-    if (g.l > 0 || g.r < 0 || g.b > 0 || g.t < 0) c.label (FL_OFFAXIS);
-    g.ratio100 = g.f > 100 * g.n;
-    if (g.ratio100) c.label (FL_RATIO100);
-    if (g.f > (quad) 1e6 * g.n) c.label (FL_RATIO1E6);
-    if (!g.ortho && (g.r - g.l) < (quad) 0.1 * g.n) c.label (FL_NARROW);
-    VP_NOTE (c, (g.ortho ? "ortho" : "persp") << " near=" << g.F.nearPlane () << " far=" << g.F.farPlane () << " left=" << g.F.left () << " right=" << g.F.right () << " top=" << g.F.top () << " bottom=" << g.F.bottom ());
+    finish_fg (c, g);
     return g;
 }
 
@@ -162,7 +174,8 @@ template <class T> static Q3 corner (const FG<T>& g, int k)
 struct Variant
 {
     bool scaled, homog, reuse;
-    int  v0; // id of the first variant label in the label table of the sub-check
+    int  v0;   // id of the first variant label in the label table of the sub-check
+    bool edge; // frusta from gen_edge_frustum (window edges / near / far-near ratio exactly on special values)
 };
 enum
 {
@@ -178,9 +191,25 @@ enum
     VL_RU_SUBEPS,
     VL_RU_CROSSES,
     VL_RU_OTHER,
+    VL_E_LEFT0,
+    VL_E_RIGHT0,
+    VL_E_TOP0,
+    VL_E_BOTTOM0,
+    VL_E_CORNER_TILE,
+    VL_E_SYM_X_ONLY,
+    VL_E_SYM_Y_ONLY,
+    VL_E_SYM_BOTH,
+    VL_E_NEAR_POW2,
+    VL_E_RATIO_POW2,
+    VL_E_VIA_WINDOW,
+    VL_E_VIA_FOV,
+    VL_E_LITERAL,
+    VL_E_NEG_ZERO,
     VL_COUNT
 };
-#define C16_V_LABELS "scene_magnitude_tiny(float<=2^-26,double<=2^-60)", "scene_magnitude_2^-3..2^3", "scene_magnitude_huge(float>=2^25,double>=2^60)", "weight_power_of_two", "weight_not_a_power_of_two(entries_rounded)", "weight_in_m33_only", "weight_negative", "weighted_camera_with_translation", "tester_fresh", "tester_reused_after_absolute_move_below_eps", "that_move_exceeds_the_frustum_size", "tester_reused_after_other_state"
+#define C16_V_LABELS "scene_magnitude_tiny(float<=2^-26,double<=2^-60)", "scene_magnitude_2^-3..2^3", "scene_magnitude_huge(float>=2^25,double>=2^60)", "weight_power_of_two", "weight_not_a_power_of_two(entries_rounded)", "weight_in_m33_only", "weight_negative", "weighted_camera_with_translation", "tester_fresh", "tester_reused_after_absolute_move_below_eps", "that_move_exceeds_the_frustum_size", "tester_reused_after_other_state", "left==0", "right==0", "top==0", "bottom==0", "corner_tile(one_x_edge_and_one_y_edge==0)", "symmetric_in_x_only", "symmetric_in_y_only", "symmetric_in_x_and_y", "near_is_power_of_two", "far/near_is_power_of_two", "built_by_window()_tile", "built_by_set(fov,aspect)_special_values", "literal_frustum", "edge_is_negative_zero"
+#define C16_V_EDGE_REQ "left==0", "right==0", "top==0", "bottom==0", "corner_tile(one_x_edge_and_one_y_edge==0)", "symmetric_in_x_only", "symmetric_in_y_only", "symmetric_in_x_and_y", "near_is_power_of_two", "far/near_is_power_of_two", "built_by_window()_tile", "literal_frustum", "edge_is_negative_zero"
+#define C16_ED_RULE " VARIANT edge: the frustum comes from the special-value generator: near = 2^(-6..6) (3/4) or 10^(-2..2); far = near x 2^k exactly (3/4) or generic; window (sizes from {1/4,1/2,1,3/2,2,3} x near or 10^(-1.3..0.7) x near; orthographic: x 1) with ONE edge exactly 0 (left, right, top or bottom; the other axis centred, asymmetric or off-axis), corner tiles (one horizontal and one vertical edge 0: [0,w]x[0,h], [-w,0]x[0,h], ...), symmetric in one axis only (other axis off-centre or with an edge on 0), fully symmetric, tiles cut by window() with screen coordinates from {-1,-1/2,0,1/2,1} out of a symmetric or fov-built frustum (left tile: right == 0 exactly), set(near,far,fov,aspect) with fov in {pi/2,pi/3,pi/4,2atan(1/2),1/2,1,2,5/2} and aspect in {1,2,1/2,4/3,16/9,3/4,3/2}, literal frusta (Frustum(1,100,-2,0,1.5,-0.5), [0,3]x[0,2], ...); 1 in 8 of the zero edges is -0; both projection kinds; built by set(), the constructors or operator=."
 #define C16_SC_RULE " VARIANT scaled: the scene is multiplied by 2^k (exact) so that its largest coordinate is about 2^E, E drawn from float -30..29 / double -100..100 (1/4 from the lowest five, 1/8 from the highest five values); all answers are scale-invariant and every tolerance is relative."
 
 template <class T> static FG<T> fg_of (const Frustum<T>& F)
@@ -247,6 +276,260 @@ template <class T> static void rescale_fg (vp::Ctx& c, const Variant* vr, FG<T>&
     label_scene_exp<T> (c, vr, E);
     VP_NOTE (c, "SCALED by 2^" << k << ": near=" << g.F.nearPlane () << " far=" << g.F.farPlane () << " left=" << g.F.left () << " right=" << g.F.right () << " top=" << g.F.top () << " bottom=" << g.F.bottom ());
 }
+// ---- special-value frusta (variant "edge") ---------------------------------------------------------------------
+// Window edges, near and far/near exactly on values where an expression of the form x/edge, edge/x, (r+l)/(r-l),
+// log2(near) ... takes a special turn.  Everything stays inside the domain: 0 < near < far, left < right, bottom < top.
+template <class T> static T edge_size (vp::Src& s, double base)
+{
+    static const double SZ[6] = { 0.25, 0.5, 1, 1.5, 2, 3 };
+    bool                simple = s.coin ();
+    if (simple)
+    {
+        int i = (int) s.below (6);
+        return (T) (base * SZ[i]);
+    }
+    double e = s.uniform (-1.3, 0.7);
+    return (T) (base * std::pow (10.0, e));
+}
+// one axis of the window: kind 0 = [0,w], 1 = [-w,0], 2 = symmetric [-w/2,w/2], 3 = off-centre generic
+template <class T> static void edge_axis (vp::Src& s, int kind, T w, T& lo, T& hi)
+{
+    switch (kind)
+    {
+        case 0: lo = 0, hi = w; break;
+        case 1: lo = -w, hi = 0; break;
+        case 2: lo = -w / 2, hi = w / 2; break;
+        default:
+        {
+            double cx = s.uniform (-1.5, 1.5);
+            lo        = (T) ((cx - 0.5) * (double) w);
+            hi        = (T) ((cx + 0.5) * (double) w);
+            if (!(hi > lo)) hi = lo + w;
+            if (lo == 0 || hi == 0 || lo == -hi) lo -= w / 4; // keep this kind strictly generic
+            break;
+        }
+    }
+}
+static const double TILE[7][2] = { { -1, 0 }, { 0, 1 }, { -1, 1 }, { -0.5, 0 }, { 0, 0.5 }, { -1, -0.5 }, { 0.5, 1 } }; // screen intervals of window() tiles
+static const double EDGE_FOV[8] = { 1.5707963267948966, 1.0471975511965976, 0.78539816339744828, 0.92729521800161219, 0.5, 1, 2, 2.5 }; // pi/2, pi/3, pi/4, 2 atan(1/2), ...
+static const double EDGE_ASP[7] = { 1, 2, 0.5, 4.0 / 3, 16.0 / 9, 0.75, 1.5 };
+template <class T> static FG<T> gen_edge_frustum (vp::Ctx& c, const Variant* vr, bool allow_fov, double max_ratio_decades)
+{
+    // near, far, left, right, top, bottom
+    static const double LIT[8][6] = { { 1, 100, -2, 0, 1.5, -0.5 }, { 1, 100, 0, 3, 2, 0 }, { 1, 100, -2, 0, 0, -1.5 }, { 2, 64, -1, 1, 0.5, -1.5 }, { 0.5, 8, 0, 1, 1, -1 }, { 1, 2, -1, 1, 1, 0 }, { 4, 4096, -3, 0, 2, 0 }, { 1, 1024, -0.5, 1.5, 0.25, -0.25 } };
+    vp::Src&            s     = c.s;
+    FG<T>               g;
+    bool                ortho = s.coin ();
+    // ---- near and far
+    T    n, f;
+    bool npow2 = s.below (4) != 0;
+    if (npow2)
+    {
+        int e = (int) s.range (-6, 6);
+        n     = std::ldexp ((T) 1, e);
+    }
+    else
+    {
+        double ne = s.uniform (-2, 2);
+        n         = (T) std::pow (10.0, ne);
+    }
+    bool rpow2 = s.below (4) != 0;
+    if (rpow2)
+    {
+        int maxk = (int) (max_ratio_decades / 0.30103);
+        int k    = (int) s.range (1, maxk);
+        f        = std::ldexp (n, k);
+    }
+    else
+    {
+        double dec = s.uniform (0.01, max_ratio_decades);
+        f          = (T) ((double) n * std::pow (10.0, dec));
+        if (!(f > n)) f = n * 2;
+    }
+    const double base = ortho ? 1.0 : (double) n;
+    int          how  = (int) s.below (allow_fov ? 8 : 7);
+    T            l = -1, r = 1, t = 1, b = -1;
+    bool         built = false; // g.F already holds the frustum (window() and fov paths)
+    switch (how)
+    {
+        case 0: // exactly one edge on 0; the other axis symmetric or generic
+        {
+            T    w     = edge_size<T> (s, base);
+            T    h     = edge_size<T> (s, base);
+            int  which = (int) s.below (4);
+            bool osym  = s.coin ();
+            if (which < 2)
+            {
+                edge_axis<T> (s, which, w, l, r);
+                edge_axis<T> (s, osym ? 2 : 3, h, b, t);
+            }
+            else
+            {
+                edge_axis<T> (s, osym ? 2 : 3, w, l, r);
+                edge_axis<T> (s, which - 2, h, b, t);
+            }
+            break;
+        }
+        case 1: // corner tile: one horizontal and one vertical edge on 0
+        {
+            T   w  = edge_size<T> (s, base);
+            T   h  = edge_size<T> (s, base);
+            int kx = (int) s.below (2);
+            int ky = (int) s.below (2);
+            edge_axis<T> (s, kx, w, l, r);
+            edge_axis<T> (s, ky, h, b, t);
+            break;
+        }
+        case 2: // symmetric in one axis only; the other off-centre or with an edge on 0
+        {
+            T    w    = edge_size<T> (s, base);
+            T    h    = edge_size<T> (s, base);
+            bool symx = s.coin ();
+            int  ok   = (int) s.below (4);
+            if (ok == 2) ok = 3;
+            if (symx)
+            {
+                edge_axis<T> (s, 2, w, l, r);
+                edge_axis<T> (s, ok, h, b, t);
+            }
+            else
+            {
+                edge_axis<T> (s, ok, w, l, r);
+                edge_axis<T> (s, 2, h, b, t);
+            }
+            break;
+        }
+        case 3: // symmetric in both axes (near / far-near ratio carry the special values)
+        {
+            T w = edge_size<T> (s, base);
+            T h = edge_size<T> (s, base);
+            edge_axis<T> (s, 2, w, l, r);
+            edge_axis<T> (s, 2, h, b, t);
+            break;
+        }
+        case 4: // a tile cut out of a symmetric frustum by window(): the left tile has right == 0 exactly, ...
+        case 5:
+        {
+            T w = edge_size<T> (s, base);
+            T h = edge_size<T> (s, base);
+            Frustum<T> S (n, f, -w / 2, w / 2, h / 2, -h / 2, ortho);
+            int        tx = (int) s.below (7);
+            int        ty = (int) s.below (7);
+            if (tx == 2 && ty == 2) tx = 0;
+            g.F = S.window ((T) TILE[tx][0], (T) TILE[tx][1], (T) TILE[ty][1], (T) TILE[ty][0]);
+            // screen coordinates -1, 0, 1 of a symmetric window give -w/2, 0, w/2 exactly (+-1/2: w x 1.5 is rounded; the
+            // window() check of section 3 covers those)
+            {
+                const quad sc[4] = { (quad) TILE[tx][0], (quad) TILE[tx][1], (quad) TILE[ty][0], (quad) TILE[ty][1] };
+                const quad got[4] = { (quad) g.F.left (), (quad) g.F.right (), (quad) g.F.bottom (), (quad) g.F.top () };
+                bool       ok = same<T> (g.F.nearPlane (), n) && same<T> (g.F.farPlane (), f) && g.F.orthographic () == ortho;
+                for (int k = 0; k < 4; ++k)
+                {
+                    quad full = k < 2 ? (quad) w : (quad) h;
+                    if (sc[k] == -1 || sc[k] == 0 || sc[k] == 1) ok = ok && got[k] == sc[k] * full / 2;
+                }
+                VP_REQUIRE (c, ok, "window/tile-exact",
+                            "window(" << TILE[tx][0] << "," << TILE[tx][1] << "," << TILE[ty][1] << "," << TILE[ty][0] << ") of the symmetric frustum near=" << n << " far=" << f << " width=" << w << " height=" << h << " gives left=" << g.F.left () << " right=" << g.F.right () << " top=" << g.F.top () << " bottom=" << g.F.bottom () << " near=" << g.F.nearPlane () << " far=" << g.F.farPlane () << " (screen coordinates -1, 0, 1 must give -w/2, 0, w/2 exactly)");
+            }
+            c.label (vr->v0 + VL_E_VIA_WINDOW);
+            built = true;
+            break;
+        }
+        case 6: // literal frusta
+        {
+            int  i    = (int) s.below (8);
+            bool keep = s.coin (); // keep the literal near/far, or scale the literal window to the drawn near
+            if (keep)
+            {
+                n = (T) LIT[i][0], f = (T) LIT[i][1];
+                l = (T) LIT[i][2], r = (T) LIT[i][3], t = (T) LIT[i][4], b = (T) LIT[i][5];
+            }
+            else
+            {
+                T k = ortho ? (T) 1 : n / (T) LIT[i][0];
+                l = (T) LIT[i][2] * k, r = (T) LIT[i][3] * k, t = (T) LIT[i][4] * k, b = (T) LIT[i][5] * k;
+            }
+            c.label (vr->v0 + VL_E_LITERAL);
+            break;
+        }
+        default: // set(near, far, fovx | fovy, aspect) with special values, optionally cut into a tile
+        {
+            int                 fi = (int) s.below (8);
+            int                 ai = (int) s.below (7);
+            bool                x  = s.coin ();
+            T                   fov = (T) EDGE_FOV[fi], asp = (T) EDGE_ASP[ai];
+            bool                viaSet = s.coin ();
+            if (viaSet)
+                g.F.set (n, f, x ? fov : (T) 0, x ? (T) 0 : fov, asp);
+            else
+                g.F = Frustum<T> (n, f, x ? fov : (T) 0, x ? (T) 0 : fov, asp);
+            bool tile = s.coin ();
+            if (tile)
+            {
+                int tx = (int) s.below (7);
+                int ty = (int) s.below (7);
+                g.F    = g.F.window ((T) TILE[tx][0], (T) TILE[tx][1], (T) TILE[ty][1], (T) TILE[ty][0]);
+                c.label (vr->v0 + VL_E_VIA_WINDOW);
+            }
+            c.label (vr->v0 + VL_E_VIA_FOV);
+            c.label (FL_FROM_FOV);
+            built = true;
+            break;
+        }
+    }
+    if (!built)
+    {
+        // 1 in 8: a zero edge becomes -0
+        if (l == 0 || r == 0 || t == 0 || b == 0)
+        {
+            bool neg = s.below (8) == 0;
+            if (neg)
+            {
+                if (l == 0) l = (T) -0.0;
+                if (r == 0) r = (T) -0.0;
+                if (t == 0) t = (T) -0.0;
+                if (b == 0) b = (T) -0.0;
+            }
+        }
+        int ctor = (int) s.below (3);
+        if (ctor == 0)
+            g.F.set (n, f, l, r, t, b, ortho);
+        else if (ctor == 1)
+            g.F = Frustum<T> (n, f, l, r, t, b, ortho);
+        else
+        {
+            Frustum<T> tmp (n, f, l, r, t, b, ortho);
+            g.F = tmp;
+        }
+        VP_REQUIRE (c, same<T> (g.F.nearPlane (), n) && same<T> (g.F.farPlane (), f) && same<T> (g.F.left (), l) && same<T> (g.F.right (), r) && same<T> (g.F.top (), t) && same<T> (g.F.bottom (), b) && g.F.orthographic () == ortho, "frustum/set-accessors",
+                    "set(" << n << "," << f << "," << l << "," << r << "," << t << "," << b << "," << ortho << ") reads back as near=" << g.F.nearPlane () << " far=" << g.F.farPlane () << " left=" << g.F.left () << " right=" << g.F.right () << " top=" << g.F.top () << " bottom=" << g.F.bottom () << " ortho=" << g.F.orthographic ());
+    }
+    finish_fg (c, g);
+    // ---- class labels of the special values actually present
+    {
+        const T L = g.F.left (), R = g.F.right (), Tp = g.F.top (), B = g.F.bottom (), N = g.F.nearPlane (), Fa = g.F.farPlane ();
+        if (L == 0) c.label (vr->v0 + VL_E_LEFT0);
+        if (R == 0) c.label (vr->v0 + VL_E_RIGHT0);
+        if (Tp == 0) c.label (vr->v0 + VL_E_TOP0);
+        if (B == 0) c.label (vr->v0 + VL_E_BOTTOM0);
+        if ((L == 0 || R == 0) && (Tp == 0 || B == 0)) c.label (vr->v0 + VL_E_CORNER_TILE);
+        if (L == -R && Tp != -B) c.label (vr->v0 + VL_E_SYM_X_ONLY);
+        if (L != -R && Tp == -B) c.label (vr->v0 + VL_E_SYM_Y_ONLY);
+        if (L == -R && Tp == -B) c.label (vr->v0 + VL_E_SYM_BOTH);
+        int ex = 0;
+        if (std::frexp (N, &ex) == (T) 0.5) c.label (vr->v0 + VL_E_NEAR_POW2);
+        if (std::frexp (Fa / N, &ex) == (T) 0.5 && std::ldexp (N, ex - 1) == Fa) c.label (vr->v0 + VL_E_RATIO_POW2);
+        if ((L == 0 && std::signbit (L)) || (R == 0 && std::signbit (R)) || (Tp == 0 && std::signbit (Tp)) || (B == 0 && std::signbit (B))) c.label (vr->v0 + VL_E_NEG_ZERO);
+    }
+    return g;
+}
+// the frustum of a case: the general generator, or the special-value generator for the "edge" variants
+template <class T> static inline FG<T> case_frustum (vp::Ctx& c, const Variant* vr, bool allow_fov = true, double max_ratio_decades = 8)
+{
+    if (vr && vr->edge) return gen_edge_frustum<T> (c, vr, allow_fov, max_ratio_decades);
+    return gen_frustum<T> (c, allow_fov, max_ratio_decades);
+}
+
 // run a case function as a variant: failure keys get the prefix
 #define C16_VARIANT(prefix, call)                            \
     do                                                       \
@@ -277,14 +560,14 @@ template <class T> static void proj_case (vp::Ctx& c, const char* tn, const Vari
     typedef Vec3<T> V;
     vp::Src&        s   = c.s;
     const quad      eps = EPS<T> ();
-    FG<T>           g   = gen_frustum<T> (c);
+    FG<T>           g   = case_frustum<T> (c, vr);
     if (vr && vr->scaled)
     {
         int E = draw_scene_exp<T> (s);
         rescale_fg (c, vr, g, E);
     }
     const Frustum<T>& F = g.F;
-    c.nt (g.asym || g.ratio100);
+    c.nt (g.asym || g.ratio100 || (vr && vr->edge));
     VP_REQUIRE (c, same<T> (F.hither (), F.nearPlane ()) && same<T> (F.yon (), F.farPlane ()), "frustum/hither-yon", tn << " hither/yon differ from nearPlane/farPlane");
     const quad n = g.n, f = g.f, l = g.l, r = g.r, t = g.t, b = g.b;
 
@@ -478,7 +761,7 @@ template <class T> static void depth_case (vp::Ctx& c, const char* tn, const Var
 {
     vp::Src&          s   = c.s;
     const quad        eps = EPS<T> ();
-    FG<T>             g   = gen_frustum<T> (c, false);
+    FG<T>             g   = case_frustum<T> (c, vr, false);
     if (vr && vr->scaled)
     {
         int E = draw_scene_exp<T> (s);
@@ -486,7 +769,7 @@ template <class T> static void depth_case (vp::Ctx& c, const char* tn, const Var
     }
     const Frustum<T>& F   = g.F;
     const quad        n = g.n, f = g.f;
-    c.nt (g.asym || g.ratio100);
+    c.nt (g.asym || g.ratio100 || (vr && vr->edge));
     // exact depth (camera-space z, negative) of a normalised z in [0,1], and its conditioning
     auto depth_of = [&] (quad zn, quad& cond) -> quad {
         quad Zp = 2 * zn - 1;
@@ -585,7 +868,15 @@ template <class T> static void depth_case (vp::Ctx& c, const char* tn, const Var
         {
             threw = true;
         }
-        VP_REQUIRE (c, !threw, "ZToDepthExc/throws", tn << " ZToDepthExc(" << zv << "," << zmin << "," << zmax << ") threw on a non-degenerate frustum");
+        // The perspective depth map 2fn / (Zp (f-n) - f - n) has its pole just beyond the far end, at zn = 1 + n/(f-n).  The
+        // normalised value is formed in T as (T(zval) - T(zmin)) / T(zdiff); for z values beyond 2^p these conversions round
+        // (allowed for in zn_err) and zval = zmax can come out as 1 + ulp(1) - which IS the pole when far/near = 1/ulp(1) exactly
+        // (float: near 2^-6, far 2^17, ZToDepth(16777227,12,16777227) = +inf, the Exc spelling throws).  A throw is accepted
+        // only where the exact denominator is within that rounding of zero (then lin2 is false as well).
+        quad Zpx  = 2 * znx - 1, denx = Zpx * (f - n) - f - n;
+        bool pole = !g.ortho && qabs (denx) <= 8 * (eps * (qabs (Zpx) * (f - n) + f + n) + 2 * zn_err * (f - n));
+        if (threw && pole) c.label (DZ_ILLCOND);
+        VP_REQUIRE (c, !threw || pole, "ZToDepthExc/throws", tn << " ZToDepthExc(" << zv << "," << zmin << "," << zmax << ") threw on a non-degenerate frustum");
         if (lin2) QG_CHK (c, "ZToDepthExc", qabs ((quad) dzE - dzx), udep, 4, tn << " ZToDepthExc(" << zv << "," << zmin << "," << zmax << ") = " << dzE << " exact " << qstr (dzx)); // measured worst 0.98 units
     }
     if (lin2) QG_CHK (c, "ZToDepth", qabs ((quad) dz - dzx), udep, 4, tn << " ZToDepth(" << zv << "," << zmin << "," << zmax << ") = " << dz << " exact " << qstr (dzx)); // measured worst 0.98 units
@@ -643,6 +934,33 @@ VP_REQUIRE_LABELS (depth_d, "perspective", "orthographic", "far/near>100", "far/
 // 3. set(fov,aspect), fovx / fovy / aspect, window, screenToLocal / localToScreen, modifyNearAndFar,
 //    screenRadius / worldRadius
 // =====================================================================================
+// every accessor and everything derived from the seven stored values is finite (a frustum produced by a modifier from a
+// valid frustum: set(fov,aspect), window(), modifyNearAndFar)
+template <class T> static void require_finite (vp::Ctx& c, const char* tn, const char* key, const char* what, const Frustum<T>& G)
+{
+    const char* bad = nullptr;
+    T           bv  = 0;
+    const T     v9[9] = { G.nearPlane (), G.farPlane (), G.left (), G.right (), G.top (), G.bottom (), G.fovx (), G.fovy (), G.aspect () };
+    static const char* const N9[9] = { "nearPlane()", "farPlane()", "left()", "right()", "top()", "bottom()", "fovx()", "fovy()", "aspect()" };
+    for (int i = 8; i >= 0; --i)
+        if (!std::isfinite (v9[i])) bad = N9[i], bv = v9[i];
+    if (!bad)
+    {
+        Matrix44<T> P = G.projectionMatrix ();
+        for (int i = 0; i < 4; ++i)
+            for (int j = 0; j < 4; ++j)
+                if (!std::isfinite (P[i][j])) bad = "an entry of projectionMatrix()", bv = P[i][j];
+        Plane3<T> pl[6];
+        G.planes (pl);
+        for (int i = 0; i < 6; ++i)
+        {
+            if (!std::isfinite (pl[i].distance)) bad = "a distance of planes()", bv = pl[i].distance;
+            for (int j = 0; j < 3; ++j)
+                if (!std::isfinite (pl[i].normal[j])) bad = "a normal of planes()", bv = pl[i].normal[j];
+        }
+    }
+    VP_REQUIRE (c, !bad, key, tn << " after " << what << ": " << (bad ? bad : "") << " = " << bv << " (near=" << G.nearPlane () << " far=" << G.farPlane () << " left=" << G.left () << " right=" << G.right () << " top=" << G.top () << " bottom=" << G.bottom () << (G.orthographic () ? " ortho)" : " persp)"));
+}
 enum
 {
     FV_FOVX = FL_FIRST_FREE,
@@ -657,6 +975,7 @@ template <class T> static void fov_case (vp::Ctx& c, const char* tn, const Varia
     vp::Src&        s   = c.s;
     const quad      eps = EPS<T> ();
     int             E   = 0;
+    const bool      edge = vr && vr->edge;
     if (vr && vr->scaled) E = draw_scene_exp<T> (s);
     // ---- set(near, far, fovx, fovy, aspect): documented relations
     {
@@ -668,6 +987,23 @@ template <class T> static void fov_case (vp::Ctx& c, const char* tn, const Varia
             f     = std::ldexp (f, k);
         }
         T    fov = (T) s.uniform (0.02, 3.0), asp = (T) std::pow (10.0, s.uniform (-0.7, 0.7));
+        if (edge) // near = 2^e, far = near x 2^k, fov and aspect from the special tables (3 in 4 each)
+        {
+            int  e  = (int) s.range (-6, 6);
+            int  k  = (int) s.range (1, 20);
+            int  fi = (int) s.below (8);
+            int  ai = (int) s.below (7);
+            bool np = s.below (4) != 0;
+            bool rp = s.below (4) != 0;
+            bool fs = s.below (4) != 0;
+            bool as = s.below (4) != 0;
+            T    ratio = f / n;
+            if (np) n = std::ldexp ((T) 1, e);
+            if (np) f = n * ratio;
+            if (rp) f = std::ldexp (n, k);
+            if (fs) fov = (T) EDGE_FOV[fi];
+            if (as) asp = (T) EDGE_ASP[ai];
+        }
         bool usex = s.coin ();
         c.label (usex ? FV_FOVX : FV_FOVY);
         Frustum<T> F (1, 2, -1, 1, 1, -1, true);
@@ -690,13 +1026,14 @@ template <class T> static void fov_case (vp::Ctx& c, const char* tn, const Varia
         QG_CHK (c, "set-fov/fovy", qabs ((quad) F.fovy () - fy), eps * (fy + tcond), 4, tn << " fovy() = " << F.fovy () << " expected " << qstr (fy)); // measured worst 0.52 units
         QG_CHK (c, "set-fov/reproduces-fov", qabs ((quad) (usex ? F.fovx () : F.fovy ()) - (quad) fov), eps * ((quad) fov + tcond), 4, tn << (usex ? " fovx() = " : " fovy() = ") << (usex ? F.fovx () : F.fovy ()) << " after set(fov = " << fov << ")"); // measured worst 0.45 units
         QG_CHK (c, "set-fov/aspect", qabs ((quad) F.aspect () - (quad) asp), eps * (quad) asp, 4, tn << " aspect() = " << F.aspect () << " after set(aspect = " << asp << ")"); // measured worst 0.99 units
+        require_finite (c, tn, "set-fov/finite", "set(near,far,fov,aspect)", F);
     }
     // ---- general frustum: fovx / fovy / aspect from the window
-    FG<T>             g = gen_frustum<T> (c, false);
+    FG<T>             g = case_frustum<T> (c, vr, false);
     if (vr && vr->scaled) rescale_fg (c, vr, g, E);
     const Frustum<T>& F = g.F;
     const quad        n = g.n, f = g.f, l = g.l, r = g.r, t = g.t, b = g.b;
-    c.nt (g.asym || g.ratio100);
+    c.nt (g.asym || g.ratio100 || edge);
     {
         quad fx = atan2q (r, n) - atan2q (l, n), fy = atan2q (t, n) - atan2q (b, n);
         QG_CHK (c, "fovx", qabs ((quad) F.fovx () - fx), eps * (qabs (atan2q (r, n)) + qabs (atan2q (l, n))), 6, tn << " fovx() = " << F.fovx () << " exact " << qstr (fx)); // measured worst 1.3 units
@@ -746,6 +1083,14 @@ template <class T> static void fov_case (vp::Ctx& c, const char* tn, const Varia
             wl = (T) s.uniform (-1, 0.9), wr = (T) s.uniform ((double) wl + 0.05, 1), wb = (T) s.uniform (-1, 0.9), wt = (T) s.uniform ((double) wb + 0.05, 1);
             c.label (FV_SUB_WINDOW);
         }
+        if (edge) // tiles: screen coordinates from {-1,-1/2,0,1/2,1} in x, in y or in both
+        {
+            int tx = (int) s.below (7);
+            int ty = (int) s.below (7);
+            int wh = (int) s.below (3);
+            if (wh != 1) wl = (T) TILE[tx][0], wr = (T) TILE[tx][1];
+            if (wh != 0) wb = (T) TILE[ty][0], wt = (T) TILE[ty][1];
+        }
         Frustum<T> W = F.window (wl, wr, wt, wb);
         VP_NOTE (c, "window(" << wl << "," << wr << "," << wt << "," << wb << ")");
         VP_REQUIRE (c, same<T> (W.nearPlane (), F.nearPlane ()) && same<T> (W.farPlane (), F.farPlane ()) && W.orthographic () == F.orthographic (), "window/near-far-ortho", tn << " window() changes near/far/orthographic");
@@ -767,10 +1112,22 @@ template <class T> static void fov_case (vp::Ctx& c, const char* tn, const Varia
         quad           ch = scr_cond ((quad) W.bottom (), (quad) W.top (), (quad) W.top ()) + scr_cond (b, t, t) * (t - b) / ((quad) W.top () - (quad) W.bottom ());
         QG_CHK (c, "window/maps-to-full-screen", qabs ((quad) cs.x - 1), eps * cw, 4, tn << " right edge of the window is at screen x = " << cs.x << " of the windowed frustum"); // measured worst 0.49 units
         QG_CHK (c, "window/maps-to-full-screen", qabs ((quad) cs.y - 1), eps * ch, 4, tn << " top edge of the window is at screen y = " << cs.y << " of the windowed frustum"); // measured worst 0.49 units
+        require_finite (c, tn, "window/finite", "window()", W);
     }
     // ---- modifyNearAndFar keeps the field of view
     {
         T          n2 = (T) ((double) n * std::pow (10.0, s.uniform (-2, 2))), f2 = n2 * (T) std::pow (10.0, s.uniform (0.1, 4));
+        if (edge) // new near = near x 2^(-6..6) (incl. unchanged), a power of two, or generic; new far = new near x 2^k or generic
+        {
+            int nk = (int) s.below (4);
+            int e  = (int) s.range (-6, 6);
+            int k  = (int) s.range (1, 16);
+            bool fp = s.coin ();
+            if (nk == 0) n2 = F.nearPlane ();
+            if (nk == 1) n2 = std::ldexp (F.nearPlane (), e);
+            if (nk == 2) n2 = std::ldexp ((T) 1, e + ilogb_pos ((double) F.nearPlane ()));
+            f2 = fp ? std::ldexp (n2, k) : n2 * (T) 37.5;
+        }
         Frustum<T> G  = F;
         G.modifyNearAndFar (n2, f2);
         VP_NOTE (c, "modifyNearAndFar(" << n2 << "," << f2 << ")");
@@ -796,6 +1153,7 @@ template <class T> static void fov_case (vp::Ctx& c, const char* tn, const Varia
             QG_CHK (c, "modifyNearAndFar/keeps-fovx", qabs ((quad) G.fovx () - (quad) F.fovx ()), eps * (1 + qabs (atan2q (r, n)) + qabs (atan2q (l, n)) + cl / (quad) n2), 4, tn << " fovx " << F.fovx () << " -> " << G.fovx ()); // measured worst 0.72 units
             QG_CHK (c, "modifyNearAndFar/keeps-fovy", qabs ((quad) G.fovy () - (quad) F.fovy ()), eps * (1 + qabs (atan2q (t, n)) + qabs (atan2q (b, n)) + cl / (quad) n2), 4, tn << " fovy " << F.fovy () << " -> " << G.fovy ()); // measured worst 0.61 units
         }
+        require_finite (c, tn, "modifyNearAndFar/finite", "modifyNearAndFar", G);
     }
     // ---- screenRadius / worldRadius
     {
@@ -967,7 +1325,7 @@ template <class T> static void planes_case (vp::Ctx& c, const char* tn, const Va
     typedef Vec3<T> V;
     vp::Src&        s   = c.s;
     const quad      eps = EPS<T> ();
-    FG<T>           g   = gen_frustum<T> (c, true, 6);
+    FG<T>           g   = case_frustum<T> (c, vr, true, 6);
     const Frustum<T>& F = g.F;
     bool            useM = s.chance (160);
     int             mk   = (int) s.range (MK_IDENT, MK_GENERAL);
@@ -1006,7 +1364,7 @@ template <class T> static void planes_case (vp::Ctx& c, const char* tn, const Va
         F.planes (p);
         c.label (PLN_NO_MATRIX);
     }
-    c.nt (g.asym || g.ratio100 || (useM && mk >= MK_RIGID));
+    c.nt (g.asym || g.ratio100 || (useM && mk >= MK_RIGID) || (vr && vr->edge));
     XPlanes<T> X = exact_planes (g, useM ? &M : nullptr);
     quad       size = 0; // extent of the frustum
     for (int k = 0; k < 8; ++k)
@@ -1149,7 +1507,7 @@ template <class T> static void cull_case (vp::Ctx& c, const char* tn, const Vari
     typedef Vec3<T> V;
     vp::Src&        s   = c.s;
     const quad      eps = EPS<T> ();
-    FG<T>           g   = gen_frustum<T> (c, true, 6);
+    FG<T>           g   = case_frustum<T> (c, vr, true, 6);
     int             mk  = (int) s.range (MK_IDENT, MK_GENERAL);
     Matrix44<T>     M   = gen_affine<T> (s, mk, false);
     int             E   = 0;
@@ -1712,6 +2070,215 @@ VP_LABELS (cullhuge_d, C16_FR_LABELS, C16_HU_LABELS)
 VP_REQUIRE_LABELS (cullhuge_d, "perspective", "orthographic", "camera_axis_aligned", "camera_general", "box_infinite", "box_wider_than_max", "box_half_infinite", "box_huge_finite", "box_touches(must be visible)", "box_has_point_outside(must not be contained)", "sphere_radius_max", "sphere_far_centre", "sphere_touches(must be visible)", "sphere_has_point_outside(must not be contained)")
 VP_FUZZABLE (cullhuge_d)
 
+// =====================================================================================
+// 6b. FrustumTest against objects with IEEE-infinite extents: boxes with +-infinity in 1..6 coordinates (per axis
+//     (-inf,b], [a,+inf) or (-inf,+inf): columns, slabs, half spaces, quadrants, all of space) and spheres with radius
+//     +infinity.  Such an object is unbounded: it always has a point outside the frustum, and it touches the region as
+//     soon as one of its (finite) points lies strictly inside.
+//
+//     Measured on the unchanged tree (float and double, perspective and orthographic, axis-aligned and rotated cameras,
+//     200000 boxes / 50000 spheres per type):
+//       isVisible(box)           true for every non-empty box with an infinite coordinate, touching or not: centre/extent
+//                                are +-inf or NaN, every plane distance is -inf or NaN, no ">= 0" comparison fires
+//                                (conservative; the statement only forbids "false" for a touching box)    -> ASSERTED
+//       completelyContains(box)  false for a box with exactly ONE unbounded axis of the form (-inf,b] (centre -inf,
+//                                extent +inf, the plane facing -axis evaluates to +inf)                   -> ASSERTED
+//                                TRUE for every box with an axis [a,+inf) or (-inf,+inf) (extent = inf - inf = NaN
+//                                poisons all six distances and NaN >= 0 is false), mostly true for two or three axes
+//                                of the form (-inf,b] with an axis-aligned camera, sometimes with a rotated one:
+//                                the unchanged tree reports half spaces, slabs and all of space as "completely
+//                                contained", against the statement                       -> observed (label), NOT asserted
+//       sphere, radius +inf      isVisible true, completelyContains false, for centres in the frustum, far away and at
+//                                +-max()                                                                  -> ASSERTED
+// =====================================================================================
+enum
+{
+    IN_CAM_AXIS = FL_FIRST_FREE,
+    IN_CAM_GENERAL,
+    IN_AXIS_LOWER,
+    IN_AXIS_UPPER,
+    IN_AXIS_BOTH,
+    IN_ONE_COORD,
+    IN_2TO5_COORDS,
+    IN_ALL_SPACE,
+    IN_BOX_MUST_BE_VISIBLE,
+    IN_BOX_NO_WITNESS,
+    IN_BOX_SINGLE_LOWER,
+    IN_BOX_CONTAINED_TRUE,
+    IN_SPH_IN_FRUSTUM,
+    IN_SPH_FAR_CENTRE,
+    IN_ILLCOND,
+    IN_V0
+};
+#define C16_IN_LABELS "camera_axis_aligned", "camera_general", "box_axis_(-inf,b]", "box_axis_[a,+inf)", "box_axis_(-inf,+inf)", "box_one_infinite_coordinate", "box_2..5_infinite_coordinates", "box_all_of_space", "box_touches(must be visible)", "box_no_interior_witness(no claim on isVisible)", "box_single_axis_(-inf,b](must not be contained)", "OBSERVED_completelyContains(unbounded box)=true(not asserted)", "sphere_centre_in_or_around_frustum", "sphere_far_centre", "unresolvable_or_overflowing_face_skipped"
+static const Variant V_IN_EDGE = { false, false, false, IN_V0, true };
+
+template <class T> static void cull_inf_case (vp::Ctx& c, const char* tn)
+{
+    typedef Vec3<T>                V;
+    typedef std::numeric_limits<T> L;
+    vp::Src&                       s   = c.s;
+    const quad                     eps = EPS<T> ();
+    const T                        INF = L::infinity ();
+    bool                           ef  = s.below (4) == 0; // 1 in 4: special-value frustum
+    FG<T>                          g   = ef ? gen_edge_frustum<T> (c, &V_IN_EDGE, true, 6) : gen_frustum<T> (c, true, 6);
+    Matrix44<T>                    M;
+    bool                           axis = s.coin ();
+    if (axis)
+    {
+        M = gen_axis_camera<T> (s);
+        c.label (IN_CAM_AXIS);
+    }
+    else
+    {
+        int mk = (int) s.range (MK_RIGID, MK_GENERAL);
+        M      = gen_affine<T> (s, mk, false);
+        c.label (IN_CAM_GENERAL);
+    }
+    VP_NOTE (c, "camera=" << mstr (M, 4));
+    bool           viaCtor = s.coin ();
+    FrustumTest<T> ft;
+    if (viaCtor)
+        ft = FrustumTest<T> (g.F, M);
+    else
+        ft.setFrustum (g.F, M);
+    XPlanes<T> X = exact_planes (g, &M);
+    for (int i = 0; i < 6; ++i)
+        if (!(eps * (1 + X.condN[i]) <= (quad) (1.0 / 64)))
+        {
+            c.label (IN_ILLCOND);
+            return;
+        }
+    c.nt ();
+    auto l1 = [] (const Q3& a) -> quad { return qabs (a.x) + qabs (a.y) + qabs (a.z); };
+    quad bfac[6];
+    for (int j = 0; j < 6; ++j)
+        bfac[j] = 8 * eps * (1 + X.condN[j]);
+    auto band = [&] (int j, const Q3& w) -> quad { return bfac[j] * (l1 (w - X.P0[j]) + X.S[j] + l1 (w)); };
+    auto sd   = [&] (int j, const Q3& w) -> quad { return dot (X.N[j], w) - X.d[j]; };
+    auto inside = [&] (const Q3& w) -> bool { // strictly inside the exact region by more than the margin
+        for (int j = 0; j < 6; ++j)
+            if (!(sd (j, w) <= -band (j, w))) return false;
+        return true;
+    };
+    // an anchor point in (2/3) or around the frustum
+    quad au  = (quad) s.uniform (0, 1.5);
+    int  ak  = (int) s.below (8);
+    V    anc = rnd<T> (X.cen + (X.cor[ak] - X.cen) * au);
+    Q3   ANC = q3 (anc);
+    // ---- box: per axis finite faces around the anchor (0), (-inf,b] (1), [a,+inf) (2), (-inf,+inf) (3)
+    {
+        int kind[3];
+        int pat = (int) s.below (8);
+        for (int a = 0; a < 3; ++a)
+        {
+            int k   = (int) s.below (4);
+            kind[a] = pat == 0 ? 3 : k; // pat 0: all of space
+        }
+        if (pat == 1 || (kind[0] == 0 && kind[1] == 0 && kind[2] == 0))
+        {
+            // exactly one unbounded axis: (-inf,b] (pat 1), or any of the three forms
+            int a  = (int) s.below (3);
+            int k  = (int) s.range (1, 3);
+            kind[0] = kind[1] = kind[2] = 0;
+            kind[a] = pat == 1 ? 1 : k;
+        }
+        V   mn, mx;
+        int ninf = 0, nlow = 0, nup = 0, nboth = 0;
+        for (int a = 0; a < 3; ++a)
+        {
+            double e1 = s.uniform (-3, 1);
+            double e2 = s.uniform (-3, 1);
+            T      sc = std::max ((T) 1, std::abs (anc[a]));
+            mn[a]     = anc[a] - (T) std::pow (10.0, e1) * sc;
+            mx[a]     = anc[a] + (T) std::pow (10.0, e2) * sc;
+            if (kind[a] == 1 || kind[a] == 3) mn[a] = -INF, ++ninf;
+            if (kind[a] == 2 || kind[a] == 3) mx[a] = INF, ++ninf;
+            if (kind[a] == 1) ++nlow, c.label (IN_AXIS_LOWER);
+            if (kind[a] == 2) ++nup, c.label (IN_AXIS_UPPER);
+            if (kind[a] == 3) ++nboth, c.label (IN_AXIS_BOTH);
+        }
+        c.label (ninf == 1 ? IN_ONE_COORD : ninf == 6 ? IN_ALL_SPACE : IN_2TO5_COORDS);
+        Box<V> box (mn, mx);
+        VP_NOTE (c, "box " << vs (box.min) << " .. " << vs (box.max));
+        VP_REQUIRE (c, !box.isEmpty () && ninf >= 1, "harness/infinite-box", "generated box is empty or bounded");
+        bool vis = ft.isVisible (box), con = ft.completelyContains (box);
+        // witnesses: finite points of the box (a point of space clamped into the box) strictly inside the region
+        Q3   A = q3 (box.min), B = q3 (box.max);
+        bool touches = false;
+        Q3   wit_in;
+        for (int k = 0; k < 8 && !touches; ++k)
+        {
+            Q3 src;
+            if (k == 0)
+                src = ANC;
+            else if (k == 1)
+                src = X.cen;
+            else
+            {
+                // a point of the frustum: towards a corner
+                quad u  = (quad) s.unit ();
+                int  ck = (int) s.below (8);
+                src     = X.cen + (X.cor[ck] - X.cen) * (u * (quad) 0.95);
+            }
+            Q3 p;
+            for (int a = 0; a < 3; ++a)
+                p[a] = qmin (qmax (src[a], A[a]), B[a]);
+            if (inside (p)) touches = true, wit_in = p;
+        }
+        if (touches)
+        {
+            c.label (IN_BOX_MUST_BE_VISIBLE);
+            VP_REQUIRE (c, vis, "FrustumTest/isVisible-infinite-box", tn << " isVisible(box " << vs (box.min) << ".." << vs (box.max) << ") = false although its point " << qs (wit_in) << " is inside the frustum");
+        }
+        else
+            c.label (IN_BOX_NO_WITNESS);
+        // an unbounded box always has points outside the (bounded) frustum.  Asserted for the class the unchanged tree
+        // gets right - exactly one unbounded axis, of the form (-inf,b] - and only counted for the others (see above).
+        if (ninf == 1 && nlow == 1)
+        {
+            c.label (IN_BOX_SINGLE_LOWER);
+            VP_REQUIRE (c, !con, "FrustumTest/completelyContains-infinite-box", tn << " completelyContains(box " << vs (box.min) << ".." << vs (box.max) << ") = true for a box that is unbounded below on one axis");
+        }
+        else if (con)
+            c.label (IN_BOX_CONTAINED_TRUE);
+        (void) nup;
+        (void) nboth;
+    }
+    // ---- sphere with radius +infinity: all of space
+    {
+        V ctr = anc;
+        int ck = (int) s.below (4);
+        if (ck == 0)
+        {
+            double dx = s.uniform (-1, 1);
+            double dy = s.uniform (-1, 1);
+            double dz = s.uniform (-1, 1);
+            if (dx * dx + dy * dy + dz * dz < 0.01) dx = 1;
+            double e = s.uniform (3, L::max_exponent10 - 2);
+            Q3     D = unit (Q3 (dx, dy, dz)) * (quad) std::pow (10.0, e);
+            ctr        = rnd<T> (D);
+            c.label (IN_SPH_FAR_CENTRE);
+        }
+        else
+            c.label (IN_SPH_IN_FRUSTUM);
+        Sphere3<T> sp (ctr, INF);
+        VP_NOTE (c, "sphere centre " << vs (ctr) << " radius inf");
+        bool vis = ft.isVisible (sp), con = ft.completelyContains (sp);
+        // (all of space: contains the whole frustum, whose interior is not empty, and has points outside - no margin involved)
+        VP_REQUIRE (c, vis, "FrustumTest/isVisible-infinite-sphere", tn << " isVisible(sphere " << vs (ctr) << ", r=inf) = false although it contains every point of the frustum, e.g. " << qs (X.cen));
+        VP_REQUIRE (c, !con, "FrustumTest/completelyContains-infinite-sphere", tn << " completelyContains(sphere " << vs (ctr) << ", r=inf) = true for a sphere that is all of space");
+    }
+}
+#define C16_IN_RULE C16_FR_RULE "(far/near up to 1e6; 1 in 4 from the special-value generator: window edges exactly 0, near / far-near powers of two, window() tiles) x cameras axis-aligned (signed permutation x 2^k scales, optional translation) or rigid..general affine, tester built by the constructor or setFrustum; an anchor point in (2/3) or around the frustum; BOXES with IEEE +-infinity in 1..6 coordinates: per axis finite faces at 10^(-3..1) around the anchor, (-inf,b], [a,+inf) or (-inf,+inf) (1/8 all of space, 1/8 exactly one axis (-inf,b]); SPHERES with radius +infinity centred at the anchor or up to 10^(E-2) away. Oracle: exact planes in quad; the anchor, the centroid and random frustum points clamped into the box are finite points of the box - one of them strictly inside the region by the usual margin => isVisible must be true; an unbounded object has points outside => completelyContains must be false. ASSERTED: isVisible(box) for every class; isVisible and completelyContains for the infinite sphere; completelyContains(box) only for boxes with exactly one unbounded axis of the form (-inf,b]. NOT ASSERTED (left out because the unchanged tree violates it - extent = inf - inf = NaN makes all six plane distances NaN and NaN >= 0 is false): completelyContains(box) = true for every box with an axis [a,+inf) or (-inf,+inf) and for most boxes with two or three axes (-inf,b]; these are counted under the OBSERVED label. Every evaluated case counts as non-trivial."
+VP_RANDOM (cullinf_f, 80000, 800000, C16_IN_RULE) { cull_inf_case<float> (c, "float"); }
+VP_LABELS (cullinf_f, C16_FR_LABELS, C16_IN_LABELS, C16_V_LABELS)
+VP_REQUIRE_LABELS (cullinf_f, "perspective", "orthographic", "camera_axis_aligned", "camera_general", "box_axis_(-inf,b]", "box_axis_[a,+inf)", "box_axis_(-inf,+inf)", "box_one_infinite_coordinate", "box_2..5_infinite_coordinates", "box_all_of_space", "box_touches(must be visible)", "box_single_axis_(-inf,b](must not be contained)", "sphere_centre_in_or_around_frustum", "sphere_far_centre", "right==0", "left==0")
+VP_FUZZABLE (cullinf_f)
+VP_RANDOM (cullinf_d, 80000, 800000, C16_IN_RULE) { cull_inf_case<double> (c, "double"); }
+VP_LABELS (cullinf_d, C16_FR_LABELS, C16_IN_LABELS, C16_V_LABELS)
+VP_REQUIRE_LABELS (cullinf_d, "perspective", "orthographic", "camera_axis_aligned", "camera_general", "box_axis_(-inf,b]", "box_axis_[a,+inf)", "box_axis_(-inf,+inf)", "box_one_infinite_coordinate", "box_2..5_infinite_coordinates", "box_all_of_space", "box_touches(must be visible)", "box_single_axis_(-inf,b](must not be contained)", "sphere_centre_in_or_around_frustum", "sphere_far_centre", "right==0", "left==0")
+VP_FUZZABLE (cullinf_d)
 
 // =====================================================================================
 // 7. Variants of sections 1-5: scenes of magnitude 2^E, equivalent homogeneous cameras, handed-over testers
@@ -1783,6 +2350,49 @@ VP_FUZZABLE (cull_homog_f)
 VP_RANDOM (cull_homog_d, 50000, 500000, C16_CU_RULE C16_HG_RULE C16_RU_RULE) { C16_VARIANT ("homog/", cull_case<double> (c, "double", &V_CU_HOMOG)); }
 VP_LABELS (cull_homog_d, C16_FR_LABELS, C16_CU_LABELS, C16_V_LABELS)
 VP_REQUIRE_LABELS (cull_homog_d, C16_CU_REQ, C16_V_HOMOG_REQ, C16_V_REUSE_REQ)
+
+// ---- variant "edge": sections 1-5 on frusta whose window edges / near / far-near ratio sit exactly on special values
+static const Variant V_PJ_EDGE  = { false, false, false, PJ_V0, true };
+static const Variant V_DZ_EDGE  = { false, false, false, DZ_V0, true };
+static const Variant V_FV_EDGE  = { false, false, false, FV_V0, true };
+static const Variant V_PLN_EDGE = { false, false, false, PLN_V0, true };
+static const Variant V_CU_EDGE  = { false, false, true, CU_V0, true };
+
+VP_RANDOM (proj_edge_f, 50000, 500000, C16_PJ_RULE C16_ED_RULE " Also projectionMatrixExc. Every case counts as non-trivial.") { C16_VARIANT ("edge/", proj_case<float> (c, "float", &V_PJ_EDGE)); }
+VP_LABELS (proj_edge_f, C16_FR_LABELS, "point_behind_eye", "point_outside_window", "ray_point_behind_eye", C16_V_LABELS)
+VP_REQUIRE_LABELS (proj_edge_f, "perspective", "orthographic", "point_behind_eye", "point_outside_window", C16_V_EDGE_REQ, "built_by_set(fov,aspect)_special_values")
+VP_RANDOM (proj_edge_d, 50000, 500000, C16_PJ_RULE C16_ED_RULE " Also projectionMatrixExc. Every case counts as non-trivial.") { C16_VARIANT ("edge/", proj_case<double> (c, "double", &V_PJ_EDGE)); }
+VP_LABELS (proj_edge_d, C16_FR_LABELS, "point_behind_eye", "point_outside_window", "ray_point_behind_eye", C16_V_LABELS)
+VP_REQUIRE_LABELS (proj_edge_d, "perspective", "orthographic", "point_behind_eye", "point_outside_window", C16_V_EDGE_REQ, "built_by_set(fov,aspect)_special_values")
+
+VP_RANDOM (depth_edge_f, 50000, 500000, C16_DZ_RULE C16_ED_RULE " Also normalizedZToDepthExc / ZToDepthExc / DepthToZExc. Every case counts as non-trivial.") { C16_VARIANT ("edge/", depth_case<float> (c, "float", &V_DZ_EDGE)); }
+VP_LABELS (depth_edge_f, C16_FR_LABELS, "zn_endpoint", "zn_close_to_1", "zrange>=2^24", "negative_zmin", "ill_conditioned_skipped", C16_V_LABELS)
+VP_REQUIRE_LABELS (depth_edge_f, "perspective", "orthographic", "far/near>100", "near_is_power_of_two", "far/near_is_power_of_two", "zn_endpoint")
+VP_RANDOM (depth_edge_d, 50000, 500000, C16_DZ_RULE C16_ED_RULE " Also normalizedZToDepthExc / ZToDepthExc / DepthToZExc. Every case counts as non-trivial.") { C16_VARIANT ("edge/", depth_case<double> (c, "double", &V_DZ_EDGE)); }
+VP_LABELS (depth_edge_d, C16_FR_LABELS, "zn_endpoint", "zn_close_to_1", "zrange>=2^24", "negative_zmin", "ill_conditioned_skipped", C16_V_LABELS)
+VP_REQUIRE_LABELS (depth_edge_d, "perspective", "orthographic", "far/near>100", "near_is_power_of_two", "far/near_is_power_of_two", "zn_endpoint")
+
+#define C16_FVE_RULE " In this variant set(near,far,fov,aspect) also takes near = 2^(-6..6), far = near x 2^(1..20), fov and aspect from the tables above; window() takes screen intervals [-1,0], [0,1], [-1,1], [-1/2,0], [0,1/2], [-1,-1/2], [1/2,1] in x, y or both; modifyNearAndFar takes new near = near (unchanged), near x 2^(-6..6), a power of two or generic, new far = new near x 2^(1..16) or x 37.5. After each modifier all accessors, fovx/fovy/aspect, projectionMatrix and planes must be finite, and modifyNearAndFar must scale a perspective window by new near / near (orthographic: unchanged). Also aspectExc / screenRadiusExc / worldRadiusExc. Every case counts as non-trivial."
+VP_RANDOM (fov_edge_f, 60000, 600000, C16_FV_RULE C16_ED_RULE C16_FVE_RULE) { C16_VARIANT ("edge/", fov_case<float> (c, "float", &V_FV_EDGE)); }
+VP_LABELS (fov_edge_f, C16_FR_LABELS, "set_fovx", "set_fovy", "identity_window", "sub_window", C16_V_LABELS)
+VP_REQUIRE_LABELS (fov_edge_f, "perspective", "orthographic", "set_fovx", "set_fovy", C16_V_EDGE_REQ)
+VP_RANDOM (fov_edge_d, 60000, 600000, C16_FV_RULE C16_ED_RULE C16_FVE_RULE) { C16_VARIANT ("edge/", fov_case<double> (c, "double", &V_FV_EDGE)); }
+VP_LABELS (fov_edge_d, C16_FR_LABELS, "set_fovx", "set_fovy", "identity_window", "sub_window", C16_V_LABELS)
+VP_REQUIRE_LABELS (fov_edge_d, "perspective", "orthographic", "set_fovx", "set_fovy", C16_V_EDGE_REQ)
+
+VP_RANDOM (planes_edge_f, 40000, 400000, C16_PLN_RULE C16_ED_RULE " Every evaluated case counts as non-trivial.") { C16_VARIANT ("edge/", planes_case<float> (c, "float", &V_PLN_EDGE)); }
+VP_LABELS (planes_edge_f, C16_FR_LABELS, C16_PLN_LABELS, C16_V_LABELS)
+VP_REQUIRE_LABELS (planes_edge_f, "perspective", "orthographic", "planes(p)", "planes(p,rigid M)", "planes(p,uniform scale)", "planes(p,non-uniform scale)", "planes(p,general affine)", C16_V_EDGE_REQ, "built_by_set(fov,aspect)_special_values")
+VP_RANDOM (planes_edge_d, 40000, 400000, C16_PLN_RULE C16_ED_RULE " Every evaluated case counts as non-trivial.") { C16_VARIANT ("edge/", planes_case<double> (c, "double", &V_PLN_EDGE)); }
+VP_LABELS (planes_edge_d, C16_FR_LABELS, C16_PLN_LABELS, C16_V_LABELS)
+VP_REQUIRE_LABELS (planes_edge_d, "perspective", "orthographic", "planes(p)", "planes(p,rigid M)", "planes(p,uniform scale)", "planes(p,non-uniform scale)", "planes(p,general affine)", C16_V_EDGE_REQ, "built_by_set(fov,aspect)_special_values")
+
+VP_RANDOM (cull_edge_f, 40000, 400000, C16_CU_RULE C16_ED_RULE C16_RU_RULE " Every evaluated case counts as non-trivial.") { C16_VARIANT ("edge/", cull_case<float> (c, "float", &V_CU_EDGE)); }
+VP_LABELS (cull_edge_f, C16_FR_LABELS, C16_CU_LABELS, C16_V_LABELS)
+VP_REQUIRE_LABELS (cull_edge_f, C16_CU_REQ, C16_V_REUSE_REQ, C16_V_EDGE_REQ, "built_by_set(fov,aspect)_special_values")
+VP_RANDOM (cull_edge_d, 40000, 400000, C16_CU_RULE C16_ED_RULE C16_RU_RULE " Every evaluated case counts as non-trivial.") { C16_VARIANT ("edge/", cull_case<double> (c, "double", &V_CU_EDGE)); }
+VP_LABELS (cull_edge_d, C16_FR_LABELS, C16_CU_LABELS, C16_V_LABELS)
+VP_REQUIRE_LABELS (cull_edge_d, C16_CU_REQ, C16_V_REUSE_REQ, C16_V_EDGE_REQ, "built_by_set(fov,aspect)_special_values")
 
 // =====================================================================================
 // 8. State carried between calls on a re-used object.
